@@ -20,7 +20,9 @@ Definition all_of (l : list term) : term :=
 
 (* the keyword arguments Function.get_sql hands to special parts (FILTER / OVER / EXTRACT .. FROM):
    with_namespace, quote_char, dialect only *)
-Definition pctx (c : ctx) : ctx := set_subq (fctx c) false.
+(* since b529b5f these parts are rendered with subquery=True as well (a scalar sub-query inside them is parenthesised,
+   like in a statement's WHERE), i.e. exactly under the context of the function's arguments *)
+Definition pctx (c : ctx) : ctx := fctx c.
 
 (* a plain sub-query.  Its own with_namespace decision overrides the caller's. *)
 Definition render_subq (c : ctx) (with_alias subquery : bool) (sq_ : squery) (alias : option string) : res string :=
